@@ -398,14 +398,20 @@ func runC15(c *an.Ctx) {
 		for _, site := range locks.Callers(hp) {
 			fn := site.Parent()
 			// status at the call is never Failed: the call is behind a store of a non-Failed status or an edge status ∈ {Leaving,Left}
-			ok := false
-			for _, st := range an.StoresTo(fn, ".Status") {
-				if an.Dominates(st, site) && an.Path(st.Val) != failed {
-					ok = true
+			// every way to the call passes a store of a non-Failed status or an edge establishing
+			// status ∈ {Leaving, Left} (decided per path, so merged switch tails and helpers are fine)
+			ok := true
+			for _, o := range an.Owners(fn) {
+				var cut []an.Edge
+				cut = append(cut, an.EdgesImplying(o, an.Cmp{L: ihStatus, Op: "==", R: cv(c, serf, "StatusLeaving")})...)
+				cut = append(cut, an.EdgesImplying(o, an.Cmp{L: ihStatus, Op: "==", R: left})...)
+				esc := an.ReachFrom(o, nil, &an.Cut{Edges: cut, Instrs: func(in ssa.Instruction) bool {
+					st, isS := in.(*ssa.Store)
+					return isS && strings.HasSuffix(an.Path(st.Addr), ".Status") && an.Path(st.Val) != failed
+				}}, func(in ssa.Instruction) bool { return in == site })
+				if esc != nil {
+					ok = false
 				}
-			}
-			if anyGuard(fn, site, an.Cmp{L: ihStatus, Op: "==", R: cv(c, serf, "StatusLeaving")}, an.Cmp{L: ihStatus, Op: "==", R: left}) {
-				ok = true
 			}
 			c.Add(ok, "R3", "handlePrune-caller:not-failed", site, "handlePrune is reached only with a member that is not in failedMembers (status just set to Leaving/Left, or tested Leaving/Left)", "dominance / edge dominance")
 		}
